@@ -67,15 +67,22 @@ class BobServer:
         self.p = subprocess.Popen(["/venv/bin/python", HELPER, "--serve"], stdin=subprocess.PIPE, stdout=subprocess.PIPE,
                                   stderr=subprocess.DEVNULL, env=env, cwd=tmp)
 
-    def query(self, req):
+    def query(self, req, timeout=600):
+        import select
         self.n += 1
         reply = os.path.join(self.tmp, "reply-%d-%d.json" % (os.getpid(), self.n))
         req = dict(req, home=os.path.join(self.tmp, "home"))
-        self.p.stdin.write((json.dumps({"req": req, "reply": reply}) + "\n").encode())
-        self.p.stdin.flush()
-        line = self.p.stdout.readline()
+        try:
+            self.p.stdin.write((json.dumps({"req": req, "reply": reply}) + "\n").encode())
+            self.p.stdin.flush()
+            ready, _, _ = select.select([self.p.stdout], [], [], timeout)
+            line = self.p.stdout.readline() if ready else b""
+        except OSError:
+            line = b""
         if not line:
-            raise RuntimeError("Bob helper died")
+            # the helper died or hangs: not a verdict about the property
+            self.p.kill()
+            return {"error": ["helper-failure", "no answer"]}
         try:
             with open(reply) as f:
                 rep = json.load(f)
@@ -365,6 +372,8 @@ def run_history(args):
             u = fresh_query(bob, base, "u", files, inv, "nomemo") if step % 3 == 0 else u1
             if any(rep.get("error", [""])[0] == "helper-failure" for rep in (w, c, u1, u)):
                 out["skipped"].append("helper failure")
+                if bob.p.poll() is not None:
+                    break
                 continue
             vw, vc, vu = view(w), view(c), view(u, False)
             hits = 0
@@ -600,7 +609,7 @@ def model_req(op):
 def corr_env(ctx):
     r = ctx.subrng("corr-env")
     reqs, want, cases = [], [], []
-    for i in range(sized(ctx, 1200, 30000)):
+    for i in range(sized(ctx, 1200, 12000)):
         ops = gen_env_ops(r, r.randrange(12, 40))
         pool = EnvPool()
         reqs.append({"op": "reset"}); want.append(None)
@@ -672,7 +681,7 @@ def corr_matcher(ctx):
         return [env, tools, r.choice([None, None, "s1", "s2"]), {"S": r.choice([0, 0, 1])} if r.random() < 0.7 else {},
                 r.choice([None, None, None, "alias"])]
 
-    for i in range(sized(ctx, 600, 25000)):
+    for i in range(sized(ctx, 600, 6000)):
         mi = Mirror()
         table, mtable = [], []          # real matchers / model matcher ids, front first
         base = rand_input()
@@ -787,7 +796,7 @@ def corr_yaml(ctx):
     I.binStat = fake
     try:
         os.makedirs("sub", exist_ok=True)
-        for case in range(sized(ctx, 100, 4000)):
+        for case in range(sized(ctx, 100, 1500)):
             if os.path.exists(".bob-cache.sqlite3"):
                 os.unlink(".bob-cache.sqlite3")
             for n in names:
